@@ -242,12 +242,12 @@ def check(ctx):
         if shape:
             ok = False
             failures.append({"case": r["line"], "check": "cst_roles", "detail": {"text": r["case"]["text"], "what": shape[:3]},
-                             "guards": set(r["causes_cst"]), "model_agrees": True,
+                             "guards": set(r["causes_cst"]), "model_agrees": r["model_agrees_cst"],
                              "replay_how": "echo '<input>' | /verif/harness/target/debug/oq3-run tree ; expected structure: vf/gen_ref.py"})
         if r["ast"]:
             ok = False
             failures.append({"case": r["line"], "check": "ast_roles", "detail": {"text": r["case"]["text"], "what": r["ast"][:3]},
-                             "guards": set(r["causes_ast"]), "model_agrees": True,
+                             "guards": set(r["causes_ast"]), "model_agrees": r["model_agrees_cst"] and r["model_agrees_ast"],
                              "replay_how": "echo '<input>' | /verif/harness/target/debug/oq3-run ast ; expected roles: vf/gen_ref.py match_ast"})
         if ok:
             nroles += 1
